@@ -3,10 +3,12 @@
 (* The MECHANISM of gds21's reader at the level of I/O calls on its source  *)
 (* (read.rs: read_record_header / read_record_content / GdsParser::next).   *)
 (*                                                                          *)
-(*   per record:  read 2 bytes (length)      ReadLen                        *)
-(*                read 1 byte  (record type) ReadRType                      *)
-(*                read 1 byte  (data type)   ReadDType                      *)
-(*                read len-4 bytes at once   ReadPayload   (none if len=4)  *)
+(*   per record:  read 2 bytes (length), 1 byte (record type), 1 byte (data *)
+(*                type), then len-4 bytes at once (none if len = 4, and     *)
+(*                none if the header is not in the decode table).           *)
+(*   Every field is fetched with read_exact: one ReadStep per read() call;  *)
+(*   a short read is followed by a request for the remainder, a read that   *)
+(*   delivers nothing ends the parse.                                       *)
 (* The parser keeps ONE record of look-ahead and stops reading for good     *)
 (* once the look-ahead is ENDLIB; it may stop earlier at any record         *)
 (* boundary (a parse error), after a short read, or after a header it       *)
@@ -15,46 +17,67 @@
 (* `bytes` is the significant part of the stream, `size` its total length   *)
 (* (trailing zero padding is not shipped).                                  *)
 (***************************************************************************)
-EXTENDS Integers, Sequences
 
-VARIABLES bytes, size, rpos, rphase, rlen, rrt, delivered, calls
-rvars == <<bytes, size, rpos, rphase, rlen, rrt, delivered, calls>>
+EXTENDS GdsRecords
+
+VARIABLES bytes, size, rpos, rphase, need, rlen, rrt, rdt, delivered, calls
+rvars == <<bytes, size, rpos, rphase, need, rlen, rrt, rdt, delivered, calls>>
 
 ByteAt(i) == IF i + 1 <= Len(bytes) THEN bytes[i + 1] ELSE 0     \* offset i, 0-based
 Avail(n) == IF rpos + n <= size THEN n ELSE IF size > rpos THEN size - rpos ELSE 0
 
-ValidRType(t) == t \in 0..59 /\ t \notin {20, 24, 29, 30, 36, 37, 39, 40, 41, 52, 53}
+ValidRType(t) == t \in 0..59 /\ t \notin NeverUsed
 ValidDType(t) == t \in 0..6
+\* read_record_content decodes a header only if (record, data type, payload length) is in its table;
+\* strings and XY may have any length there.  Otherwise it fails WITHOUT touching the payload.
+Decodable(rt, dt, plen) ==
+  /\ KnownNum(rt)
+  /\ LET e == RecTable[NameOfNum(rt)] IN
+     /\ dt = e.dt
+     /\ e.n >= 0 => plen = e.n * ItemSize(e.dt)
 
-RInit(b, s) == /\ bytes = b /\ size = s /\ rpos = 0 /\ rphase = "len" /\ rlen = 0 /\ rrt = -1
+RInit(b, s) == /\ bytes = b /\ size = s /\ rpos = 0 /\ rphase = "len" /\ need = 2 /\ rlen = 0 /\ rrt = -1 /\ rdt = -1
                /\ delivered = 0 /\ calls = 0
 
-\* one read call asking for n bytes at the current offset; got = bytes delivered
-Read(n, got) ==
-  /\ got = Avail(n)
+\* what the completed field means: the next phase and the number of bytes it needs
+AfterField(first) ==       \* `first` = offset where the completed field started
+  CASE rphase = "len" ->
+         LET v == (ByteAt(first) * 256) + ByteAt(first + 1) IN
+         [ph |-> IF v < 4 \/ v % 2 # 0 THEN "stopped" ELSE "rtype", need |-> 1, len |-> v, rt |-> rrt, dt |-> rdt]
+    [] rphase = "rtype" ->
+         [ph |-> IF ValidRType(ByteAt(first)) THEN "dtype" ELSE "stopped", need |-> 1, len |-> rlen, rt |-> ByteAt(first), dt |-> rdt]
+    [] rphase = "dtype" ->
+         LET d == ByteAt(first) IN
+         [ph |-> IF ~ValidDType(d) \/ ~Decodable(rrt, d, rlen - 4) THEN "stopped"
+                 ELSE IF rlen = 4 THEN (IF rrt = 4 THEN "ended" ELSE "len") ELSE "payload",
+          need |-> IF rlen = 4 THEN 2 ELSE rlen - 4, len |-> rlen, rt |-> rrt, dt |-> d]
+    [] rphase = "payload" ->
+         [ph |-> IF rrt = 4 THEN "ended" ELSE "len", need |-> 2, len |-> rlen, rt |-> rrt, dt |-> rdt]
+
+\* one read call at the current offset asking for the n bytes the current field still needs
+\* (read_exact: a short read is followed by a request for the remainder; a read of 0 bytes ends it)
+FieldSize == CASE rphase = "len" -> 2 [] rphase = "payload" -> rlen - 4 [] OTHER -> 1
+ReadStep(n, got) ==
+  /\ rphase \in {"len", "rtype", "dtype", "payload"}
+  /\ n = need /\ got = Avail(n)
   /\ rpos' = rpos + got /\ delivered' = delivered + got /\ calls' = calls + 1
   /\ UNCHANGED <<bytes, size>>
+  /\ IF got = 0 THEN rphase' = "stopped" /\ UNCHANGED <<need, rlen, rrt, rdt>>
+     ELSE IF got < need THEN need' = need - got /\ UNCHANGED <<rphase, rlen, rrt, rdt>>
+     ELSE LET a == AfterField(rpos + got - FieldSize) IN
+          rphase' = a.ph /\ need' = a.need /\ rlen' = a.len /\ rrt' = a.rt /\ rdt' = a.dt
 
-ReadLen(got) ==
-  /\ rphase = "len" /\ Read(2, got)
-  /\ IF got < 2 THEN rphase' = "stopped" /\ UNCHANGED <<rlen, rrt>>
-     ELSE LET v == (ByteAt(rpos) * 256) + ByteAt(rpos + 1) IN
-          /\ rlen' = v /\ UNCHANGED rrt
-          /\ rphase' = IF v < 4 \/ v % 2 # 0 THEN "stopped" ELSE "rtype"
-ReadRType(got) ==
-  /\ rphase = "rtype" /\ Read(1, got)
-  /\ IF got < 1 THEN rphase' = "stopped" /\ UNCHANGED <<rlen, rrt>>
-     ELSE /\ rrt' = ByteAt(rpos) /\ UNCHANGED rlen
-          /\ rphase' = IF ValidRType(ByteAt(rpos)) THEN "dtype" ELSE "stopped"
-ReadDType(got) ==
-  /\ rphase = "dtype" /\ Read(1, got)
-  /\ UNCHANGED <<rlen, rrt>>
-  /\ IF got < 1 \/ ~ValidDType(ByteAt(rpos)) THEN rphase' = "stopped"
-     ELSE rphase' = IF rlen = 4 THEN (IF rrt = 4 THEN "ended" ELSE "len") ELSE "payload"
-ReadPayload(n, got) ==
-  /\ rphase = "payload" /\ n = rlen - 4 /\ Read(n, got)
-  /\ UNCHANGED <<rlen, rrt>>
-  /\ rphase' = IF got < n THEN "stopped" ELSE IF rrt = 4 THEN "ended" ELSE "len"
+\* ---- is a complete ENDLIB record reachable by following length fields from offset 0?
+\*      (a stream for which this is false "ends before its end-of-library record": C10 requires an error)
+RECURSIVE WalkToEndlib(_, _, _)
+WalkToEndlib(b, sz, p) ==
+  IF p + 4 > sz THEN FALSE
+  ELSE LET at(i) == IF i + 1 <= Len(b) THEN b[i + 1] ELSE 0
+           n == (at(p) * 256) + at(p + 1) IN
+       IF n < 4 \/ n % 2 # 0 \/ p + n > sz THEN FALSE
+       ELSE IF at(p + 2) = 4 THEN TRUE
+       ELSE WalkToEndlib(b, sz, p + n)
+HasEndlib(b, sz) == WalkToEndlib(b, sz, 0)
 
 \* ---- the property-level facts about any read log (C10: work proportional to the input)
 WorkBound == delivered <= size /\ calls <= size + 4
